@@ -23,13 +23,14 @@ type fakePG struct {
 	schemas map[string]bool
 	enums   map[string][]string // "schema.name" -> values
 	tables  map[string]bool     // "schema.name"
+	views   map[string]string   // "schema.name" -> the table ("schema.name") it selects from
 	Execs   []string
 	Unknown []string
 	FailOn  string // an Exec whose text contains this fails (nothing changes)
 }
 
 func newFakePG() *fakePG {
-	return &fakePG{schemas: map[string]bool{"public": true}, enums: map[string][]string{}, tables: map[string]bool{}}
+	return &fakePG{schemas: map[string]bool{"public": true}, enums: map[string][]string{}, tables: map[string]bool{}, views: map[string]string{}}
 }
 
 // State renders the catalogue canonically.
@@ -45,6 +46,9 @@ func (f *fakePG) State() string {
 	}
 	for t := range f.tables {
 		out = append(out, "table "+t)
+	}
+	for v, t := range f.views {
+		out = append(out, "view "+v+" on "+t)
 	}
 	sort.Strings(out)
 	return strings.Join(out, "; ")
@@ -200,7 +204,8 @@ var (
 	rePGCreateType   = regexp.MustCompile(`(?i)^CREATE TYPE ` + rePGIdent + ` AS ENUM \((.*)\)`)
 	rePGDropType     = regexp.MustCompile(`(?i)^DROP TYPE (?:IF EXISTS )?` + rePGIdent)
 	rePGCreateTable  = regexp.MustCompile(`(?i)^CREATE TABLE (?:IF NOT EXISTS )?` + rePGIdent)
-	rePGDropTable    = regexp.MustCompile(`(?i)^DROP TABLE (?:IF EXISTS )?` + rePGIdent)
+	rePGDropTable    = regexp.MustCompile(`(?i)^DROP TABLE (?:IF EXISTS )?` + rePGIdent + `( CASCADE)?`)
+	rePGCreateView   = regexp.MustCompile(`(?is)^CREATE VIEW ` + rePGIdent + ` AS .* FROM ` + rePGIdent)
 )
 
 type fakeResult struct{}
@@ -258,6 +263,11 @@ func (c *fakePGConn) ExecContext(_ context.Context, q string, _ []driver.NamedVa
 				delete(f.enums, k)
 			}
 		}
+		for k := range f.views {
+			if strings.HasPrefix(k, m[1]+".") {
+				delete(f.views, k)
+			}
+		}
 		delete(f.schemas, m[1])
 	case rePGCreateType.MatchString(q):
 		m := rePGCreateType.FindStringSubmatch(q)
@@ -278,9 +288,21 @@ func (c *fakePGConn) ExecContext(_ context.Context, q string, _ []driver.NamedVa
 			return nil, fmt.Errorf("fakepg: schema %q does not exist", sch(m[1]))
 		}
 		f.tables[sch(m[1])+"."+m[2]] = true
+	case rePGCreateView.MatchString(q):
+		m := rePGCreateView.FindStringSubmatch(q)
+		f.views[sch(m[1])+"."+m[2]] = sch(m[3]) + "." + m[4]
 	case rePGDropTable.MatchString(q):
 		m := rePGDropTable.FindStringSubmatch(q)
-		delete(f.tables, sch(m[1])+"."+m[2])
+		t := sch(m[1]) + "." + m[2]
+		for v, on := range f.views {
+			if on == t {
+				if m[3] == "" {
+					return nil, fmt.Errorf("fakepg: cannot drop table %s because other objects depend on it (view %s)", t, v)
+				}
+				delete(f.views, v)
+			}
+		}
+		delete(f.tables, t)
 	default:
 		f.Unknown = append(f.Unknown, "exec: "+q)
 	}
